@@ -22,7 +22,7 @@ META = {
     "trusted_base": ["Python list/deque semantics (append/popleft/indexed assignment)"],
     "assumptions": ["capacity >= 1", "TreeStorage is covered by C19"],
 }
-META["explanation"] += ' Also COPY (copy / pickle hooks of every storage keep its state), descriptors that keep a capacity on themselves, DEP-C04 ORIG.'
+META["explanation"] += ' Also COPY (copy / pickle hooks of every storage keep its state), descriptors that keep a capacity on themselves, DEP-C04 ORIG; OWNER: no code outside a storage assigns its state / configuration attributes.'
 MIN_INSTANCES = {"PARALLEL": 5, "COUNT": 5, "OBS": 5, "COPY": 5}
 
 FIFO_ROOT = "IntervalStorage"
@@ -38,11 +38,61 @@ def check(run):
     for cls in classes:
         _storage(run, prog, cls, fifo_root in prog.mro(cls))
         ctor_wiring(run, prog, cls, "CTOR")         # capacity / store_targets as configured
+    _outside_writes(run, prog, classes)
     from .copylib import copy_protocol
     for cls in classes:
         copy_protocol(run, prog, cls)               # copies / pickles of a storage hold what the storage holds
     from .c06 import depends_on
     depends_on(run, "C04", {"ORIG"})                # no explainer writes into the rows it reads from a storage
+    depends_on(run, "C06", {"NOMUT"})               # no imputer changes the containers get_data hands out
+    depends_on(run, "C14", {"INPUT"})               # the wrappers only read the rows (stored dicts) they convert
+    depends_on(run, "C15", {"DEFAULTS"}, only=lambda rule, inst: inst.endswith(".storage"))   # the explainer updates the caller's storage object itself
+
+
+def _outside_writes(run, prog, classes):
+    """OWNER: the state and the configuration of a storage (its containers, capacity, store_targets flag, counters)
+    are written by the storage's own methods only.  Code that holds a storage and assigns one of these attributes
+    (`storage.store_targets = True` after observations have been stored, ...) breaks what the per-class rules have
+    established for every update sequence."""
+    import ast
+    fields = set()
+    for cls in classes:
+        try:
+            fields |= {f for f in prog.summarise(cls, "__init__").fields if "." not in f and not f.startswith("%")}
+        except ir.Unsupported:
+            pass
+    family = {k.qual for c in classes for k in prog.mro(c)}
+    n = 0
+    for m in prog.modules.values():
+        for K in list(m.classes.values()) + [None]:
+            fns = list(K.methods.values()) if K is not None else list(m.functions.values())
+            for fn in fns:
+                me = fn.args.args[0].arg if (K is not None and fn.args.args) else None
+                for x in ast.walk(fn):
+                    target = attr = None
+                    if isinstance(x, ast.Attribute) and isinstance(x.ctx, (ast.Store, ast.Del)) and x.attr in fields:
+                        target, attr = x.value, x.attr
+                    elif isinstance(x, ast.Call) and isinstance(x.func, ast.Name) and x.func.id in ("setattr", "delattr") and \
+                            len(x.args) >= 2 and isinstance(x.args[1], ast.Constant) and x.args[1].value in fields:
+                        target, attr = x.args[0], x.args[1].value
+                    if target is None:
+                        continue
+                    n += 1
+                    own = isinstance(target, ast.Name) and target.id == me
+                    if own:
+                        continue            # an object assigning its own attribute (a storage, or another class's namesake)
+                    held = ast.unparse(target)
+                    looks_like_storage = "storage" in held.lower() or "reservoir" in held.lower() or \
+                        (K is not None and K.qual in family)
+                    if not looks_like_storage:
+                        continue
+                    fq = f"{K.name + '.' if K else ''}{fn.name}"
+                    run.fail("OWNER", f"{fq}:{attr}", f"{m.path}:{x.lineno}", fq, f"{held}.{attr} written in {fq}",
+                             f"{fq} assigns `{attr}` of a storage it holds ({held}): the configuration / state of a storage is "
+                             f"changed from outside after construction, e.g. targets start to be kept for a storage that "
+                             f"already holds instances without targets, so instances and targets are no longer aligned")
+    if not any(f.rule == "OWNER" for f in run.findings):
+        run.ok("OWNER", "package", f"{n} assignments to storage attribute names, all by the owning object")
 
 
 def _storage(run, prog, cls, fifo):
